@@ -37,11 +37,7 @@ theorem init_is_documented (seed : UInt64) (s : RngState) :
     simp [Spec.seed256, Spec.discards, Spec.bootstrap, core, splitmix_initialize, (splitmix_spec _).1, (splitmix_spec _).2]
   · rw [repeat_commute (fun s => (cmb_random_curseed s).1) _ id
       (fun a => by simp [cmb_random_curseed, (sfc64_spec a).2, setCore])]
-    have hid : ∀ (n : Nat) (x : UInt64), Nat.repeat id n x = x := by
-      intro n x; induction n with
-      | zero => rfl
-      | succ n ih => simpa [Nat.repeat] using ih
-    simp [hid, cmb_random_curseed, splitmix_initialize, (splitmix_spec _).2]
+    simp [repeat_id, cmb_random_curseed, splitmix_initialize, (splitmix_spec _).2]
 
 /-- hence the raw 64-bit stream after seeding is the documented one, whatever the thread did before -/
 theorem raw_stream_is_documented (seed : UInt64) (s : RngState) (n : Nat) :
@@ -109,5 +105,62 @@ theorem state_vars_in_inventory : rngStateVars.all (fun k => rngInventory.any (f
 /-- the read set used in `reseed_forgets` is what `cmb_random_initialize` writes: every field a call reads is assigned by
     seeding (the syntactic counterpart of `init_overwrites_reads`) -/
 theorem reads_subset_seed_writes : rngReadSet.all (fun f => rngSeedWrites.contains f) = true := by decide
+
+/-! ## 4. The model's shifts are the C program's shifts
+
+  `(bits >> --bitpos)`: C leaves a shift by 64 or more undefined, Lean's `>>>` on `UInt64` reduces the amount modulo 64.
+  The two agree because the cache position never exceeds 64 (these three statements name the cache variable of the
+  repaired source, `flip_bitpos`; the shift amount is the decremented position). -/
+
+/-- the cache position stays within 0..64: initially, after seeding, after every call -/
+theorem flip_pos_invariant :
+    RngState.init.flip_bitpos ≤ 64 ∧
+    (∀ seed s, (cmb_random_initialize seed s).flip_bitpos ≤ 64) ∧
+    (∀ c s, s.flip_bitpos ≤ 64 → (step c s).2.flip_bitpos ≤ 64) := by
+  refine ⟨by decide, ?_, ?_⟩
+  · intro seed s
+    unfold cmb_random_initialize
+    rw [repeat_commute (fun (s : RngState) => s.flip_bitpos) _ id (fun a => by simp [(sfc64_spec a).2, setCore])]
+    simp [repeat_id, splitmix_initialize, (splitmix_spec _).2]
+  · intro c s h
+    cases c <;> simp [step, cmb_random_curseed, cmb_random_terminate, (sfc64_spec s).2, setCore, h]
+    unfold cmb_random_flip
+    split
+    · simp
+    · rename_i h0
+      simp at h0 ⊢
+      exact Nat.le_of_lt (UInt8.lt_iff_toNat_lt.mp (u8_dec_lt _ h0 h))
+
+/-- the shift amount used by `cmb_random_flip` (the decremented position) is below 64 -/
+theorem flip_shift_defined (s : RngState) (h : s.flip_bitpos ≤ 64) : (cmb_random_flip s).2.flip_bitpos < 64 := by
+  unfold cmb_random_flip
+  split
+  · simp
+  · rename_i h0
+    simp at h0 ⊢
+    exact u8_dec_lt _ h0 h
+
+/-! ## Non-vacuity and concrete values -/
+
+/- the calls really do depend on the state, so `reseed_forgets` says something: two histories, different flips -/
+example : ∃ s₁ s₂ : RngState, runCalls s₁ [.flip] ≠ runCalls s₂ [.flip] :=
+  ⟨(step .flip (cmb_random_initialize 42 RngState.init)).2,
+   (step .flip (step .flip (step .flip (cmb_random_initialize 42 RngState.init)).2).2).2, by decide +kernel⟩
+
+/- the model computes the values the library returns (seed 42: first raw output, then ten coin flips — the same values as
+   in corpus/rng/flip-cache-survives-reseed.txt, run 0) -/
+example : runCalls (cmb_random_initialize 42 RngState.init) [.raw] = [.word 0x13554e33b8870be2] := by decide
+example : runCalls (cmb_random_initialize 42 RngState.init) (List.replicate 10 .flip) =
+    [0, 0, 0, 1, 0, 0, 1, 1, 0, 1].map .int := by decide +kernel
+example : Spec.stream 42 2 = [0x13554e33b8870be2, 0xf42f8984b34064e0] := by decide
+
+/- an instance of `reseed_forgets` with a partially consumed cache on one side -/
+example : runCalls (cmb_random_initialize 42 (afterCalls RngState.init [.flip, .flip, .flip])) [.flip, .raw] =
+          runCalls (cmb_random_initialize 42 RngState.init) [.flip, .raw] :=
+  reseed_forgets _ _ 42 _
+
+/- the inventory is not empty and contains the generator state -/
+example : rngInventory.length ≥ 10 ∧ rngInventory.any (fun v => v.name == "prng_state" && v.storage == .threadLocal) = true := by
+  decide
 
 end CimbaModel.Props.C15
